@@ -214,17 +214,17 @@ CHECKS["C15"] = dict(
           "deleted, connectors and junctions deleted inside pending transactions, moves followed by deletes, routers destroyed with queued actions; and the repository's own test programs run in the same sanitizer build. "
           "non-trivial = as defined by the respective harness (lifecycle histories: an object was deleted while another still referred to it, or the router was destroyed with queued actions)"),
     workloads=[
-        _san("c01_vpsc", "instances", 10000, 400000), _san("c01_vpsc", "histories", 4000, 100000), _san("c01_vpsc", "opt", 3000, 60000), _san("c01_vpsc", "resolve", 1500, 30000),
+        _san("c01_vpsc", "instances", 10000, 200000), _san("c01_vpsc", "histories", 4000, 50000), _san("c01_vpsc", "opt", 3000, 60000), _san("c01_vpsc", "resolve", 1500, 30000),
         _san("c17_paths", "graphs", 2500, 60000), _san("c09_overlaps", "sets", 2500, 60000), _san("c09_overlaps", "gen", 2500, 60000),
-        _san("c16_geom", "random", 100000, 4000000),
+        _san("c16_geom", "random", 100000, 2000000),
         _san("c03_route", "valid", 1500, 40000), _san("c03_route", "shortest", 1500, 30000), _san("c03_route", "ortho", 2500, 50000),
         _san("c06_incr", "history", 2500, 60000, watchdog=60), _san("c10_nudge", "nudge", 2500, 60000), _san("c11_pins", "pins", 1500, 40000), _san("c12_hyper", "hyper", 2500, 60000),
         _san("c07_cola", "constraints", 1500, 30000, watchdog=60), _san("c07_cola", "overlap", 1000, 20000),
-        _san("c13_topology", "pipeline", 800, 20000), _san("c13_topology", "direct", 4000, 100000, watchdog=60),
-        _san("c14_hola", "random", 160, 6000, watchdog=300),
-        _san("c18_dialect", "subset", 3000, 100000), _san("c18_dialect", "roundtrip", 4000, 100000),
-        _san("c19_decomp", "peel", 8000, 300000), _san("c19_decomp", "planarise", 5000, 200000),
-        _san("c15_api", "avoid", 5000, 150000, watchdog=60), _san("c15_api", "vpsc", 8000, 300000, watchdog=30), _san("c15_api", "regress", 3, 3, fixed=True, watchdog=60),
+        _san("c13_topology", "pipeline", 800, 20000), _san("c13_topology", "direct", 4000, 50000, watchdog=60),
+        _san("c14_hola", "random", 160, 3000, watchdog=300),
+        _san("c18_dialect", "subset", 3000, 50000), _san("c18_dialect", "roundtrip", 4000, 50000),
+        _san("c19_decomp", "peel", 8000, 150000), _san("c19_decomp", "planarise", 5000, 100000),
+        _san("c15_api", "avoid", 5000, 80000, watchdog=60), _san("c15_api", "vpsc", 8000, 150000, watchdog=30), _san("c15_api", "regress", 3, 3, fixed=True, watchdog=60),
         # the repository's own 178 test programs compiled against the sanitizer build (quick: the first 24 of the sorted list)
         _san("repo_tests.py", "repotests", 24, 178, fixed=True, watchdog=300),
     ],
